@@ -42,7 +42,7 @@ type gossipOp struct {
 }
 
 type roundSpec struct {
-	Def    string            `json:"def"` // D deliver | F fail | C cancelled ctx | R response lost | T timeout | L late
+	Def    string            `json:"def"` // D deliver | F fail | C cancelled ctx | R response lost | T timeout | L late | V rendezvous inside the juror
 	By     map[string]string `json:"by"`  // juror addr -> decision
 	Gossip []gossipOp        `json:"gossip"`
 	Flush  bool              `json:"flush"`
@@ -81,6 +81,7 @@ type tcase struct {
 	Members []memberInit `json:"members"`
 	Ops     []op         `json:"ops"`
 	RtUs    int          `json:"rt_us"`
+	RvMs    int          `json:"rv_ms"`
 	Jitter  int64        `json:"jitter"`
 }
 
@@ -132,30 +133,45 @@ func goid() int64 {
 
 type runKey struct{}
 
+type rvResult struct {
+	run, j, key  uint32
+	how, verdict int
+}
+
 type lateMsg struct {
 	run, j, key uint32
 }
 
 type harness struct {
-	mu       sync.Mutex // linearises views, the event log and juror deliveries
-	gmu      sync.Mutex // goroutine registry + jitter source
-	gorun    map[int64]uint32
-	injuror  map[int64]bool
-	views    map[uint32][]viewEnt
-	arb      map[uint32]bool
-	events   [][]any
-	nextRun  uint32
-	runRound map[uint32]int
-	runSpec  map[uint32][]roundSpec
-	pending  []lateMsg
-	net      *mock.Network[req, res]
-	inner    *mock.UnaryClient[req, res]
-	used     map[uint32]bool
-	assigned map[uint32]uint32
-	rt       time.Duration
-	jit      *rand.Rand
-	panicked *string
-	wg       sync.WaitGroup
+	mu sync.Mutex // linearises views, the event log and juror deliveries
+	// vmu additionally guards views for the one reader that must not take mu: a juror's
+	// Candidates() call made from a rendezvous delivery (see sendProposal, decision V).
+	vmu        sync.RWMutex
+	rvjuror    map[int64]uint32         // goroutine -> juror it is delivering a V request to
+	rvCh       map[uint32]chan struct{} // per juror: the two-party meeting point inside Candidates()
+	rvInflight map[uint32]int           // per juror: V deliveries not yet returned
+	rvDone     map[uint32][]rvResult    // per juror: V deliveries returned, not yet logged
+	rvGen      map[uint32]int
+	rvCond     *sync.Cond
+	rvWait     time.Duration
+	gmu        sync.Mutex // goroutine registry + jitter source
+	gorun      map[int64]uint32
+	injuror    map[int64]bool
+	views      map[uint32][]viewEnt
+	arb        map[uint32]bool
+	events     [][]any
+	nextRun    uint32
+	runRound   map[uint32]int
+	runSpec    map[uint32][]roundSpec
+	pending    []lateMsg
+	net        *mock.Network[req, res]
+	inner      *mock.UnaryClient[req, res]
+	used       map[uint32]bool
+	assigned   map[uint32]uint32
+	rt         time.Duration
+	jit        *rand.Rand
+	panicked   *string
+	wg         sync.WaitGroup
 }
 
 var (
@@ -196,7 +212,9 @@ func (h *harness) setView(a uint32, v []viewEnt) {
 		}
 		rv = append(rv, e)
 	}
+	h.vmu.Lock()
 	h.views[a] = rv
+	h.vmu.Unlock()
 	h.logf("G", a, dumpGroup(group(rv)))
 }
 
@@ -207,7 +225,31 @@ func (h *harness) candidates(a uint32) func() node.Group {
 		h.gmu.Lock()
 		inj := h.injuror[g]
 		run, isRun := h.gorun[g]
+		rvj, isRv := h.rvjuror[g]
+		var ch chan struct{}
+		if isRv && rvj == a {
+			ch = h.rvCh[a]
+			if ch == nil {
+				ch = make(chan struct{})
+				h.rvCh[a] = ch
+			}
+		}
 		h.gmu.Unlock()
+		if ch != nil {
+			// A proposal scripted to meet another one INSIDE this juror: wait here, between the
+			// juror's "already approved" lookup and its append, until a second proposal is at the
+			// same point or the wait expires (a juror whose verdict is atomic never lets the second
+			// one in, so there the first simply proceeds after the wait).
+			select {
+			case ch <- struct{}{}:
+			case <-ch:
+			case <-time.After(h.rvWait):
+			}
+			h.vmu.RLock()
+			gr := group(h.views[a])
+			h.vmu.RUnlock()
+			return gr
+		}
 		if inj {
 			// called by juror.verdict while the delivering goroutine holds h.mu
 			return group(h.views[a])
@@ -428,8 +470,21 @@ func (c *client) sendProposal(ctx context.Context, target address.Address, rq re
 		}
 		return res{}, err
 	}
+	if d == "V" {
+		return c.sendRendezvous(ctx, target, rq, r, j, key, 0)
+	}
 	// D and R: the juror processes the request before any cancellation reaches it
 	h.mu.Lock()
+	if h.rvInflight[j] > 0 {
+		// proposals are being held inside this juror: join them, so that the log keeps the
+		// juror's own order of verdicts
+		h.mu.Unlock()
+		how := 0
+		if d == "R" {
+			how = 2
+		}
+		return c.sendRendezvous(ctx, target, rq, r, j, key, how)
+	}
 	if !h.arb[j] {
 		h.logf("RQ", r, j, key, 1, 3)
 		h.mu.Unlock()
@@ -443,6 +498,54 @@ func (c *client) sendProposal(ctx context.Context, target address.Address, rq re
 	}
 	h.logf("RQ", r, j, key, 0, verdictClass(err))
 	h.mu.Unlock()
+	return res{}, err
+}
+
+// sendRendezvous delivers a proposal WITHOUT holding h.mu, so that two proposals can be inside
+// the same juror at once; the juror's Candidates() closure holds each of them at the meeting
+// point. The verdicts of the proposals that were inside juror j together are logged as one
+// block once all of them have returned, approvals first: with an atomic verdict that is the
+// juror's own order (whoever approved a key did so before the other was refused it).
+func (c *client) sendRendezvous(ctx context.Context, target address.Address, rq req, r, j, key uint32, how int) (res, error) {
+	h := c.h
+	h.mu.Lock()
+	if !h.arb[j] {
+		h.logf("RQ", r, j, key, 1, 3)
+		h.mu.Unlock()
+		return res{}, address.NewTargetNotFoundError(target)
+	}
+	h.rvInflight[j]++
+	h.mu.Unlock()
+	g := goid()
+	h.gmu.Lock()
+	h.rvjuror[g] = j
+	h.gmu.Unlock()
+	_, err := h.inner.Send(context.WithoutCancel(ctx), target, rq)
+	h.gmu.Lock()
+	delete(h.rvjuror, g)
+	h.gmu.Unlock()
+	h.mu.Lock()
+	h.rvDone[j] = append(h.rvDone[j], rvResult{r, j, key, how, verdictClass(err)})
+	h.rvInflight[j]--
+	if h.rvInflight[j] == 0 {
+		done := h.rvDone[j]
+		h.rvDone[j] = nil
+		sort.SliceStable(done, func(a, b int) bool { return done[a].verdict == 0 && done[b].verdict != 0 })
+		for _, d := range done {
+			h.logf("RQ", d.run, d.j, d.key, d.how, d.verdict)
+		}
+		h.rvGen[j]++
+		h.rvCond.Broadcast()
+	} else {
+		gen := h.rvGen[j]
+		for h.rvGen[j] == gen {
+			h.rvCond.Wait()
+		}
+	}
+	h.mu.Unlock()
+	if how == 2 {
+		return res{}, errLost
+	}
 	return res{}, err
 }
 
@@ -510,6 +613,13 @@ func runCase(c tcase) (out result) {
 		gorun: map[int64]uint32{}, injuror: map[int64]bool{}, views: map[uint32][]viewEnt{},
 		arb: map[uint32]bool{}, runRound: map[uint32]int{}, runSpec: map[uint32][]roundSpec{},
 		used: map[uint32]bool{}, assigned: map[uint32]uint32{}, nextRun: 1,
+		rvjuror: map[int64]uint32{}, rvCh: map[uint32]chan struct{}{}, rvInflight: map[uint32]int{},
+		rvDone: map[uint32][]rvResult{}, rvGen: map[uint32]int{},
+	}
+	h.rvCond = sync.NewCond(&h.mu)
+	h.rvWait = time.Duration(c.RvMs) * time.Millisecond
+	if h.rvWait <= 0 {
+		h.rvWait = 40 * time.Millisecond
 	}
 	h.net = mock.NewNetwork[req, res]()
 	h.inner = h.net.UnaryClient()
@@ -538,7 +648,9 @@ func runCase(c tcase) (out result) {
 			h.used[m.Addr] = true
 			server := h.net.UnaryServer(addrOf(m.Addr))
 			max := m.Max // 0: DefaultConfig.MaxProposals applies
+			h.vmu.Lock()
 			h.views[m.Addr] = m.View
+			h.vmu.Unlock()
 			if err := pledge.Arbitrate(pledge.Config{
 				TransportClient: &client{UnaryClient: h.inner, h: h, self: m.Addr},
 				TransportServer: server,
